@@ -225,6 +225,13 @@ func (self *BinaryConv) unmarshalSingular(ctx context.Context, resp http.Respons
 		message := (*fd).Message()
 		comma := false
 		start := p.Read
+		if l < 0 || start+l > len(p.Buf) {
+			return wrapError(meta.ErrRead, "message length exceeds buffer", nil)
+		}
+		// repeated and map fields scan forward for more elements: they must stop at the end of this message
+		buf := p.Buf
+		p.Buf = buf[:start+l]
+		defer func() { p.Buf = buf }()
 
 		*out = json.EncodeObjectBegin(*out)
 
@@ -283,14 +290,18 @@ func (self *BinaryConv) unmarshalList(ctx context.Context, resp http.ResponseSet
 		start := p.Read
 		// parse Value repeated
 		for p.Read < start+len {
-			self.unmarshalSingular(ctx, resp, p, out, fd.Elem())
+			if err := self.unmarshalSingular(ctx, resp, p, out, fd.Elem()); err != nil {
+				return err
+			}
 			if p.Read != start && p.Read != start+len {
 				*out = json.EncodeArrayComma(*out)
 			}
 		}
 	} else {
 		// unpackedList(format)：[Tag][Length][Value] [Tag][Length][Value]....
-		self.unmarshalSingular(ctx, resp, p, out, fd.Elem())
+		if err := self.unmarshalSingular(ctx, resp, p, out, fd.Elem()); err != nil {
+			return err
+		}
 		for p.Read < len(p.Buf) {
 			elementFieldNumber, _, tagLen, err := p.ConsumeTagWithoutMove()
 
@@ -303,7 +314,9 @@ func (self *BinaryConv) unmarshalList(ctx context.Context, resp http.ResponseSet
 			}
 			*out = json.EncodeArrayComma(*out)
 			p.Read += tagLen
-			self.unmarshalSingular(ctx, resp, p, out, fd.Elem())
+			if err := self.unmarshalSingular(ctx, resp, p, out, fd.Elem()); err != nil {
+				return err
+			}
 		}
 	}
 
@@ -335,8 +348,8 @@ func (self *BinaryConv) unmarshalMap(ctx context.Context, resp http.ResponseSett
 	if isIntKey {
 		*out = append(*out, '"')
 	}
-	if self.unmarshalSingular(ctx, resp, p, out, mapKeyDesc) != nil {
-		return wrapError(meta.ErrRead, "parse MapKey Value error", err)
+	if err := self.unmarshalSingular(ctx, resp, p, out, mapKeyDesc); err != nil {
+		return unwrapError("parse MapKey Value error", err)
 	}
 	if isIntKey {
 		*out = append(*out, '"')
@@ -347,8 +360,8 @@ func (self *BinaryConv) unmarshalMap(ctx context.Context, resp http.ResponseSett
 		return wrapError(meta.ErrRead, "parse MapValue Tag error", err)
 	}
 	mapValueDesc := fd.Elem()
-	if self.unmarshalSingular(ctx, resp, p, out, mapValueDesc) != nil {
-		return wrapError(meta.ErrRead, "parse MapValue Value error", err)
+	if err := self.unmarshalSingular(ctx, resp, p, out, mapValueDesc); err != nil {
+		return unwrapError("parse MapValue Value error", err)
 	}
 
 	// parse the remaining k-v pairs
@@ -376,8 +389,8 @@ func (self *BinaryConv) unmarshalMap(ctx context.Context, resp http.ResponseSett
 		if isIntKey {
 			*out = append(*out, '"')
 		}
-		if self.unmarshalSingular(ctx, resp, p, out, mapKeyDesc) != nil {
-			return wrapError(meta.ErrRead, "parse MapKey Value error", err)
+		if err := self.unmarshalSingular(ctx, resp, p, out, mapKeyDesc); err != nil {
+			return unwrapError("parse MapKey Value error", err)
 		}
 		if isIntKey {
 			*out = append(*out, '"')
@@ -387,8 +400,8 @@ func (self *BinaryConv) unmarshalMap(ctx context.Context, resp http.ResponseSett
 		if valueErr != nil {
 			return wrapError(meta.ErrRead, "parse MapValue Tag error", err)
 		}
-		if self.unmarshalSingular(ctx, resp, p, out, mapValueDesc) != nil {
-			return wrapError(meta.ErrRead, "parse MapValue Value error", err)
+		if err := self.unmarshalSingular(ctx, resp, p, out, mapValueDesc); err != nil {
+			return unwrapError("parse MapValue Value error", err)
 		}
 	}
 
